@@ -4,13 +4,13 @@ import json, os, shutil, re
 import vlib, models
 
 SUPPORTED = {'Add', 'Close', 'Wait', 'WUF', 'Pause', 'PauseAndWait', 'Resume', 'Stop', 'WaitAndStop', 'Restart', 'TunePool',
-             'Purge', 'QClose', 'CancelCtx'}
-READONLY = {'Status', 'NumPending', 'NumProcessing', 'NumIdle', 'NumConc', 'Metrics', 'WStatus', 'QPending', 'Yield'}
+             'Purge', 'QClose', 'CancelCtx', 'AddAll', 'BatchWait', 'BatchRead', 'Result'}
+READONLY = {'Status', 'NumPending', 'NumProcessing', 'NumIdle', 'NumConc', 'Metrics', 'WStatus', 'QPending', 'Yield', 'BatchPending'}
 
 
 def eligible(prog):
     c = prog['cfg']
-    if c.get('wk', 'plain') != 'plain' or len(c.get('queues') or []) != 1 or c['queues'][0] not in ('fifo', 'prio'):
+    if len(c.get('queues') or []) != 1 or c['queues'][0] not in ('fifo', 'prio', 'pfifo', 'pprio') or (c.get('consumers') or 1) > 1 or c.get('preload') or c.get('crash_at'):
         return False
     if c.get('nobind') or c.get('idgen') or c.get('strategy') not in (None, '', 'rr'):
         return False
@@ -26,6 +26,8 @@ def eligible(prog):
 def spec_op(o):
     if o['op'] in READONLY:
         return {'op': 'Nop', 'job': 0, 'n': 0}
+    if o['op'] in ('AddAll', 'BatchWait', 'BatchRead'):
+        return {'op': o['op'], 'job': 0, 'n': o.get('b', 0)}
     return {'op': o['op'], 'job': o.get('job', 0), 'n': o.get('n', 0)}
 
 
@@ -33,12 +35,17 @@ def write_case(ep, d):
     prog = ep['prog']
     cfg = prog['cfg']
     os.makedirs(d, exist_ok=True)
-    jobs, prio = [], {}
+    jobs, prio, bof = [], {}, {}
     for cl in prog['clients']:
         for o in cl['ops']:
             if o['op'] == 'Add':
                 jobs.append(o['job'])
                 prio[o['job']] = o.get('prio', 0)
+            if o['op'] == 'AddAll':
+                for it in o.get('items') or []:
+                    jobs.append(it['job'])
+                    prio[it['job']] = it.get('prio', 0)
+                    bof[it['job']] = o['b']
     jobs = sorted(set(jobs)) or [1]
     for j in jobs:
         prio.setdefault(j, 0)
@@ -52,9 +59,15 @@ ProgG == %s
 PrioG == %s
 DispG == %s
 PGG == %s
+OutG == %s
+BatchG == %s
+FaultsG == {%s}
 ====
 ''' % (progs, ' @@ '.join('(%d :> %d)' % (j, prio[j]) for j in jobs),
-       models.tla_val(['disp%d' % (i + 1) for i in range(nrestart + 2)]), models.tla_val(['pg%d' % (i + 1) for i in range(9)]))
+       models.tla_val(['disp%d' % (i + 1) for i in range(nrestart + 2)]), models.tla_val(['pg%d' % (i + 1) for i in range(9)]),
+       ' @@ '.join('(%d :> "%s")' % (j, (prog.get('outcome') or {}).get(str(j), 'ok')) for j in jobs),
+       ' @@ '.join('(%d :> %d)' % (j, bof.get(j, 0)) for j in jobs),
+       ', '.join('<<"%s", %d>>' % (a, b) for a, bs in (prog.get('faults') or {}).items() for b in bs))
     c = '''SPECIFICATION TSpec
 CONSTANTS
  Clients = {%s}
@@ -70,12 +83,17 @@ CONSTANTS
  Expiry = %s
  WithCtx = %s
  MaxGen = %d
+ WK = "%s"
+ Outcome <- OutG
+ BatchOf <- BatchG
+ Faults <- FaultsG
+ MaxCrash = 0
 CHECK_DEADLOCK FALSE
 CONSTRAINT HighWater
 POSTCONDITION Accepted
 ''' % (', '.join('"%s"' % cl['name'] for cl in prog['clients']), ', '.join(map(str, jobs)), cfg['queues'][0],
        ', '.join(str(i + 1) for i in range(nn)), cfg.get('conc', 1), cfg.get('ratio', 0), 'TRUE' if cfg.get('expiry_us', 0) > 0 else 'FALSE',
-       'TRUE' if cfg.get('ctx') else 'FALSE', nrestart + 1)
+       'TRUE' if cfg.get('ctx') else 'FALSE', nrestart + 1, cfg.get('wk', 'plain'))
     open(os.path.join(d, 'TraceRun.tla'), 'w').write(txt)
     open(os.path.join(d, 'TraceRun.cfg'), 'w').write(c)
     tp = os.path.join(d, 'trace.ndjson')
